@@ -30,6 +30,55 @@ pub struct Case {
     /// one module crowded with this many pairs of names that are equal ignoring case
     #[serde(default)]
     pub crowded: Option<u32>,
+    /// hand-shaped documents: 0 = several files sharing one namespace with duplicate structs,
+    /// built with Builder::dedup; 1 = groups of struct cycles whose members differ in what can
+    /// be derived for them
+    #[serde(default)]
+    pub special: Option<u8>,
+}
+
+/// Files that share a namespace and each carry their own copy of the same structs (what
+/// `Builder::dedup` exists for), next to structs of their own.
+fn shared_namespace_files() -> (Vec<(String, String)>, Vec<String>) {
+    let mut files = vec![];
+    let mut main = String::from("namespace rs top\ninclude \"a.thrift\"\ninclude \"b.thrift\"\ninclude \"c.thrift\"\nstruct Top { 1: a.Base0 x, 2: b.Base3 y, 3: c.OwnC2 z }\n");
+    let names: Vec<String> = (0..10).map(|i| format!("Base{}", i)).collect();
+    for stem in ["a", "b", "c"] {
+        let mut t = String::from("namespace rs shared\n");
+        for (i, n) in names.iter().enumerate() {
+            t.push_str(&format!("struct {} {{ 1: i32 f{}, 2: optional string s, 3: list<i64> l }}\n", n, i));
+        }
+        for i in 0..14 {
+            t.push_str(&format!("struct Own{}{} {{ 1: Base{} b, 2: map<string, i32> m{} }}\n", stem.to_uppercase(), i, i % 10, i));
+        }
+        files.push((format!("{}.thrift", stem), t));
+    }
+    main.push_str("service S { a.Base1 get(1: b.Base2 r) }\n");
+    files.insert(0, ("main.thrift".to_string(), main));
+    (files, names)
+}
+
+/// Groups of struct cycles: in each group one cycle has a member that cannot derive Hash / Ord
+/// (a map, a double) and hangs a second, harmless cycle off it; what is derived for whom must
+/// not depend on the order in which an unordered set of pending items is visited.
+fn cycle_groups_text() -> String {
+    let mut t = String::from("namespace rs cycles\n");
+    for g in 0..8 {
+        let bad = match g % 3 {
+            0 => "map<string, i32>",
+            1 => "double",
+            _ => "list<map<i32, string>>",
+        };
+        t.push_str(&format!("struct S{g} {{ 1: optional P{g} p, 2: optional A{g} a }}\n"));
+        t.push_str(&format!("struct P{g} {{ 1: optional Q{g} q, 2: i32 n, 3: optional Holder{g} h }}\n"));
+        t.push_str(&format!("struct Q{g} {{ 1: optional R{g} r, 2: string s }}\n"));
+        t.push_str(&format!("struct R{g} {{ 1: optional P{g} back, 2: optional A{g} side, 3: list<B{g}> bs }}\n"));
+        t.push_str(&format!("struct A{g} {{ 1: optional B{g} b, 2: i64 x }}\n"));
+        t.push_str(&format!("struct B{g} {{ 1: optional A{g} a, 2: set<string> tags }}\n"));
+        t.push_str(&format!("struct Holder{g} {{ 1: {bad} v }}\n"));
+        t.push_str(&format!("union U{g} {{ 1: P{g} p, 2: A{g} a, 3: Holder{g} h }}\n"));
+    }
+    t
 }
 
 /// Many items in one module, pairwise equal ignoring case (file names on a case-insensitive
@@ -55,6 +104,11 @@ fn crowded_text(n: u32) -> String {
 fn files_of(c: &Case) -> (bool, Vec<(String, String)>, usize) {
     if let Some(n) = c.crowded {
         return (false, vec![("crowd.thrift".to_string(), crowded_text(n))], 1);
+    }
+    match c.special {
+        Some(0) => return (false, shared_namespace_files().0, 1),
+        Some(_) => return (false, vec![("cycles.thrift".to_string(), cycle_groups_text())], 1),
+        None => {}
     }
     if let Some(p) = &c.proto {
         return (true, vcore::pschema::resolve_pdoc(p).print_files(), 1);
@@ -132,6 +186,10 @@ fn build_once(c: &Case, mode: Mode, slot: &str, threads: usize) -> Result<BTreeM
     }
     args.push("--include-dir".into());
     args.push(idl.to_string_lossy().into());
+    if c.special == Some(0) {
+        args.push("--dedup".into());
+        args.push(shared_namespace_files().1.join(","));
+    }
     let b = run_vbuild(&args, Some(threads), 120);
     if !b.ok {
         return Err(format!("builder failed ({}): {}", b.status, vcore::evidence::truncate(&b.stderr, 400)));
@@ -203,28 +261,31 @@ pub fn run(ctx: &Ctx) -> i32 {
     let mut cases: Vec<Case> = vec![];
     for k in 0..vcore::kitchen::thrift_docs().len() {
         for m in [Mode::Single, Mode::Split, Mode::Workspace] {
-            cases.push(Case { raw: None, kitchen: Some(k), mode: m, proto: None, pkitchen: None, crowded: None });
+            cases.push(Case { raw: None, kitchen: Some(k), mode: m, proto: None, pkitchen: None, crowded: None, special: None });
         }
     }
     let n = ctx.tier.pick(8, 60) as usize;
     let hostile = GenOpts { hostile_names: true, ..GenOpts::default() };
     for (i, raw) in sample(&arb_raw_doc(hostile), ctx.seed, "c17-hostile", n).into_iter().enumerate() {
-        cases.push(Case { raw: Some(raw), kitchen: None, mode: [Mode::Single, Mode::Split, Mode::Workspace][i % 3], proto: None, pkitchen: None, crowded: None });
+        cases.push(Case { raw: Some(raw), kitchen: None, mode: [Mode::Single, Mode::Split, Mode::Workspace][i % 3], proto: None, pkitchen: None, crowded: None, special: None });
     }
     for (i, raw) in sample(&arb_raw_doc(GenOpts::default()), ctx.seed, "c17-plain", n).into_iter().enumerate() {
-        cases.push(Case { raw: Some(raw), kitchen: None, mode: [Mode::Split, Mode::Workspace, Mode::Single][i % 3], proto: None, pkitchen: None, crowded: None });
+        cases.push(Case { raw: Some(raw), kitchen: None, mode: [Mode::Split, Mode::Workspace, Mode::Single][i % 3], proto: None, pkitchen: None, crowded: None, special: None });
     }
     for k in 0..vcore::kitchen::proto_docs().len() {
         for m in [Mode::Single, Mode::Split] {
-            cases.push(Case { raw: None, kitchen: None, mode: m, proto: None, pkitchen: Some(k), crowded: None });
+            cases.push(Case { raw: None, kitchen: None, mode: m, proto: None, pkitchen: Some(k), crowded: None, special: None });
         }
     }
     for (i, praw) in sample(&vcore::pschema::arb_raw_pdoc(), ctx.seed, "c17-proto", n).into_iter().enumerate() {
-        cases.push(Case { raw: None, kitchen: None, mode: [Mode::Single, Mode::Split][i % 2], proto: Some(praw), pkitchen: None, crowded: None });
+        cases.push(Case { raw: None, kitchen: None, mode: [Mode::Single, Mode::Split][i % 2], proto: Some(praw), pkitchen: None, crowded: None, special: None });
     }
     let crowds: &[(u32, Mode)] = if ctx.tier == vcore::evidence::Tier::Quick { &[(30, Mode::Split), (40, Mode::Split)] } else { &[(30, Mode::Split), (40, Mode::Single), (40, Mode::Split), (64, Mode::Split), (64, Mode::Workspace)] };
     for (n, m) in crowds {
-        cases.push(Case { raw: None, kitchen: None, mode: *m, proto: None, pkitchen: None, crowded: Some(*n) });
+        cases.push(Case { raw: None, kitchen: None, mode: *m, proto: None, pkitchen: None, crowded: Some(*n), special: None });
+    }
+    for (sp, m) in [(0u8, Mode::Single), (0, Mode::Split), (1, Mode::Single), (1, Mode::Split)] {
+        cases.push(Case { raw: None, kitchen: None, mode: m, proto: None, pkitchen: None, crowded: None, special: Some(sp) });
     }
     let runs: Vec<usize> = if ctx.tier == vcore::evidence::Tier::Quick { vec![1, 16, 2, 8, 3, 4, 16, 1] } else { (0..48).map(|i| [1, 16, 2, 8, 3, 4, 5, 7][i % 8]).collect() };
     let results: std::sync::Mutex<Vec<(usize, Result<usize, Fail>)>> = Default::default();
